@@ -757,6 +757,22 @@ def c04(ctx):
                 un.append("%s 0 %s %s" % (rng.choice(("crypt_r", "crypt_rn")), hx(ph), hx(s)))
     ev4 = ctx.run_xcv(un)
     v4 = judge(ctx, ev4, "uninit", cfgev)
+    # crypt_gensalt* under the sanitizers too: every prefix, boundary counts, sizes and byte counts (incl. negative)
+    gs = ["entropy 0 5"]
+    for pfx in GS_PREFIXES:
+        for c in (0, 4, 99, 2 ** 64 - 1):
+            for nr in (None, 0, 3, 16, 64, 256):
+                rb = None if nr is None else bytes(rng.randrange(256) for _ in range(nr))
+                for sz in (192, 30, 8, 3, 0, -1):
+                    gs.append(gs_cmd("gensalt_rn", pfx, c, rb, "len", sz))
+        gs.append(gs_cmd("gensalt_rn", pfx, 0, bytes(16), "-1", 192))
+        gs.append(gs_cmd("gensalt", pfx, 0, None))
+        gs.append(gs_cmd("gensalt_ra", pfx, 0, bytes(rng.randrange(256) for _ in range(20))))
+    ev5 = ctx.run_xcv(gs[: (2500 if quick else 100000)], flavour="asan", env={"XCV_NO_RLIMIT": "1"}, timeout=1500)
+    vgs = judge_gs(ctx, ev5, "asangs", config_event(ctx, "asan"))
+    for (p_, what, payload) in list(ctx.violations):
+        if p_ == "C13" and what.startswith(("Fault", "Local")):
+            ctx.violations.append(("C04", "gensalt under ASan/UBSan: " + what, payload))
     behs = behaviours(ctx, 30 if quick else 200)
     ev3 = ctx.run_xcv(concretize(ctx, behs, cfgev["E"]), flavour="asan", env={"XCV_NO_RLIMIT": "1"}, timeout=1500)
     v3 = judge(ctx, ev3, "asanwalk", config_event(ctx, "asan"))
